@@ -529,7 +529,7 @@ class Flat(Stream):
     header = HEADER
     case_type = 'kind * attrs * option props * option attrs'
     check_fn = 'check_flat'
-    shard = 120
+    shard = 25
     rule = ('one sliver of each of the 5 classes; properties drawn from the class\'s full setter vocabulary '
             '(list_properties()): modes full (every setter), some (0-6 random setters), min (name+type); '
             'distinct by property list; non-trivial = at least 3 properties besides name/type')
@@ -706,7 +706,7 @@ class Deep(Stream):
     header = HEADER
     case_type = 'tree * option dd * option tree * option tree * option tree'
     check_fn = 'check_deep'
-    shard = 40
+    shard = 8
     rule = ('sliver trees of every containment shape (node>components>services>interfaces>sub-interfaces, '
             'node>services, stand-alone service/interface/link) to depth 5 levels, 0-3 children per level, None / empty / '
             'non-empty child dictionaries; three routes; non-trivial = at least 3 slivers in the tree; distinct by tree')
@@ -897,7 +897,7 @@ class Element(Stream):
     header = HEADER
     case_type = 'kind * props * list op * list opres * props'
     check_fn = 'check_elem'
-    shard = 100
+    shard = 50
     rule = ('sequences of 2-8 set_property / set_properties / get_property / unset operations on a node, component, '
             'service, interface or link element of a live ExperimentTopology (in-memory backend), property names from '
             'the class\'s full setter vocabulary; distinct by operation list; non-trivial = at least one set followed by a '
